@@ -175,7 +175,7 @@ impl Server {
         let app_processing = app.execute(&request, &connection);
         if app_processing.is_err() {
             let message = app_processing.as_ref().err().unwrap().to_string();
-            let response = Server::bad_request_response(message);
+            let response = Server::bad_request_response(message.clone());
 
             let boxed_stream = stream.write_all(response.borrow());
             if boxed_stream.is_ok() {
@@ -187,6 +187,7 @@ impl Server {
                 let write_message = boxed_stream.err().unwrap().to_string();
                 return Err(write_message);
             };
+            return Err(message);
         }
         let response = app_processing.unwrap();
 
